@@ -127,7 +127,7 @@ def cmp_terms(I, st, a, b):
 
 def clone_val(I, st, v):
     """structural Clone: scalars copy, Arc-like pointers alias, boxes deep-copy, model objects via hook"""
-    if isinstance(v, (Sc, z3.ExprRef, Str, FnItem, Uninit, SymEnum, Opaque)) or v is None:
+    if isinstance(v, (Sc, z3.ExprRef, Str, FnItem, Uninit, SymEnum, Opaque, int, Ref)) or v is None:
         return v
     if isinstance(v, Agg):
         return Agg(v.ty, [clone_val(I, st, f) for f in v.fields])
@@ -740,6 +740,9 @@ def install(I):
             return I.ret(st, NONE)
         if ty == '()':
             return I.ret(st, UNIT)
+        mcoll = re.match(r'^(?:\w+::)*(HashSet|HashMap|BTreeMap|Vec|VecDeque)<', ty)
+        if mcoll:
+            return I.ret(st, Agg(mcoll.group(1), ()))
         if ty.startswith('('):
             parts = split_top_types(ty[1:-1])
             vals = []
